@@ -1,6 +1,7 @@
 #!/bin/sh
 # run every claimed check (quick by default) on the current tree; prints one line per property
-cd /verif
+cd "$(dirname "$0")/.." || exit 2
+[ -n "$VP_RUN_REPO" ] && export VERIF_REPO="$VP_RUN_REPO"
 tier=${1:-quick}
 for p in $(python3 -c "import json;print(' '.join(c['property_id'] for c in json.load(open('MANIFEST.json'))['checks']))"); do
   ./check $p $tier 2>&1 | grep -E "^(OK|VIOLATION|KNOWN-FINDING|INFRA)" | cut -c1-200
